@@ -349,6 +349,55 @@ def column_stats(rows, nintf, k, block_counts=(20, 40)):
             "sigma": max(sjk, floor), "sum_a": D}
 
 
+def exact_mean_length(nintf, k):
+    """closed form for the mean number of frames of the paths of data column k (ensemble [(k-1)+]) with nintf
+    interfaces: 2 + (k²−1)/3 + k(nintf−k) — `Infretis.C01.mean_length_closed_form`"""
+    return 2 + Fraction(k * k - 1, 3) + k * (nintf - k)
+
+
+def length_stats(rows, nintf, k, block_counts=(20, 40)):
+    """reweighted mean path length Σ a·len / Σ a of column k (a = frac_k/w_k), its effective standard error
+    (delete-one-block jackknife over contiguous blocks, floored by the weighted sample spread / √Kish)"""
+    a, L = [], []
+    for (_pn, ln, _mx, fr, w) in rows:
+        if w[k] == "----" or fr[k] == "----":
+            continue
+        wk = float(w[k])
+        if wk == 0.0:
+            continue
+        a.append(float(fr[k]) / wk)
+        L.append(float(ln))
+    D = sum(a)
+    if not a or D <= 0:
+        return None
+    m = sum(x * y for x, y in zip(a, L)) / D
+    m0 = float(exact_mean_length(nintf, k))
+    kish = D * D / sum(x * x for x in a)
+    # spread around the exact mean (not the sample mean: a biased sample must not shrink its own error bar)
+    var0 = sum(x * (y - m0) ** 2 for x, y in zip(a, L)) / D
+    floor = (var0 / kish) ** 0.5
+    sig = []
+    n = len(a)
+    for nb in block_counts:
+        if n < 2 * nb:
+            continue
+        nbk, dbk = [0.0] * nb, [0.0] * nb
+        for i in range(n):
+            b = i * nb // n
+            nbk[b] += a[i] * L[i]
+            dbk[b] += a[i]
+        N_, D_ = sum(nbk), sum(dbk)
+        if any(D_ - d <= 0 for d in dbk):
+            continue
+        th = [(N_ - nbk[b]) / (D_ - dbk[b]) for b in range(nb)]
+        mm = sum(th) / nb
+        sig.append(((nb - 1) / nb * sum((t - mm) ** 2 for t in th)) ** 0.5)
+    if not sig:
+        return {"m": m, "m0": m0, "n": n, "kish": kish, "floor": floor, "sigma_jk": None, "sigma": None}
+    sjk = max(sig)
+    return {"m": m, "m0": m0, "n": n, "kish": kish, "floor": floor, "sigma_jk": sjk, "sigma": max(sjk, floor)}
+
+
 if __name__ == "__main__":
     import json
     import sys
